@@ -128,22 +128,18 @@ Definition write_at {B} (out : list B) (start : nat) (rows : list B) : res (list
   then Ok (firstn start out ++ rows ++ skipn (start + length rows) out)
   else Raised EShape.
 
-(*  start = 0
-    for item in imap:
-        if item is not None:
-            if out is not None:
-                if chunksize == 0: out[base + (start,)].update_(item); start += 1
-                else: end = start + item.shape[dim]; out[base + (slice(start, end),)].update_(item); start = end
-            else: imaplist.append(item)
-    — a None item leaves `start` where it is. *)
-Fixpoint reassemble_out {B} (unbound : bool) (out : list B) (start : nat) (items : list (option (list B)))
-  : res (list B) :=
-  match items with
-  | [] => Ok out
-  | None :: r => reassemble_out unbound out start r
-  | Some rows :: r =>
-      if unbound && negb (length rows =? 1) then Raised EShape else
-      rbind (write_at out start rows) (fun out' => reassemble_out unbound out' (start + length rows) r)
+(*  out_split = _split_tensordict(out, chunksize, num_chunks, num_workers, dim, use_generator=...)      (fix S1)
+    for item, out_chunk in zip(imap, out_split, strict=True):
+        if item is not None: out_chunk.update_(item)
+    — the k-th result goes to the k-th chunk of out whether or not earlier results are None;
+      without out=: `if item is not None: imaplist.append(item)`. *)
+Fixpoint reassemble_out {B} (out : list B) (bs : list (nat * nat)) (items : list (option (list B))) : res (list B) :=
+  match bs, items with
+  | [], [] => Ok out
+  | (a, b) :: bs', Some rows :: r =>
+      if length rows =? b - a then rbind (write_at out a rows) (fun out' => reassemble_out out' bs' r) else Raised EShape
+  | _ :: bs', None :: r => reassemble_out out bs' r
+  | _, _ => Raised EValue                     (* zip(strict=True) *)
   end.
 
 Fixpoint somes {B} (items : list (option B)) : list B :=
@@ -153,13 +149,14 @@ Fixpoint somes {B} (items : list (option B)) : list B :=
 Definition cat_results {B} (items : list (option (list B))) : option (list B) :=
   match somes items with [] => None | l => Some (concat l) end.
 
-(* shared / memmap out=: newfn((item, out_chunk)) does out_chunk.update_(fn(item)) inside the worker and returns None;
-   out_chunk is the piece of `out` produced by the same _split_tensordict arguments *)
+(* shared / memmap out=: newfn((item, out_chunk)) does `result = fn(item); if result is not None: out_chunk.update_(result)`
+   inside the worker (fix C12-a) and returns None; out_chunk is the piece of `out` produced by the same
+   _split_tensordict arguments *)
 Fixpoint shared_out {B} (out : list B) (bs : list (nat * nat)) (items : list (option (list B))) : res (list B) :=
   match bs, items with
   | (a, b) :: bs', Some rows :: r =>
       if length rows =? b - a then rbind (write_at out a rows) (fun out' => shared_out out' bs' r) else Raised EShape
-  | _ :: _, None :: _ => Raised EType        (* out.update_(None) *)
+  | _ :: bs', None :: r => shared_out out bs' r
   | _, _ => Ok out
   end.
 
@@ -182,10 +179,11 @@ Definition map_model {A B} (f : list A -> option (list B)) (rows : list A) (kind
   rbind (split_pieces n cs nc nw gen false) (fun ps =>
   let bs := map (bounds n) ps in
   let items := trusted_imap (fun ab => f (take rows ab)) bs in
-  let unbound := match cs with Some 0 => true | _ => false end in
   match kind with
   | ONone => Ok (match cat_results items with None => RetNone | Some l => RetCat l end)
-  | ORegular => rmap RetOut (reassemble_out unbound out 0 items)
+  | ORegular =>
+      rbind (split_pieces (length out) cs nc nw gen false) (fun ops =>
+      rmap RetOut (reassemble_out out (map (bounds (length out)) ops) items))
   | OShared =>
       (* out_split is built with the same arguments on `out`; zip(strict=True) of the two *)
       rbind (split_pieces (length out) cs nc nw gen false) (fun ops =>
